@@ -347,8 +347,10 @@ func init() {
 		r.Extra["requests_per_state"] = len(reqs)
 		// the served directory named "." (sequential: the working directory is process-wide)
 		cwdStates := append(append([]harness.Tree(nil), fsProbeStates()...), fsSpellingStates(states, true)...)
-		if len(cwdStates) > 14 {
-			cwdStates = cwdStates[:14]
+		// names beginning with a dot directly below a directory named "."
+		cwdStates = append([]harness.Tree{{"/": {Dir: true}, "/.profile": {Content: "x"}, "/profile": {Content: "yy"}, "/.config": {Dir: true}, "/.config/a.html": {Content: "x"}, "/..rc": {Content: ""}, "/a": {Dir: true}, "/a/.hidden": {Content: "x"}}}, cwdStates...)
+		if len(cwdStates) > 15 {
+			cwdStates = cwdStates[:15]
 		}
 		c01CwdRoot(r, cwdStates, reqs)
 		first := true
